@@ -128,6 +128,13 @@ def check_setwise(res, tier, shard, nshards):
                         got = M.MatchesSetwise(*ms).match(list(values)) is None
                         res.evaluations += 1
                         verdicts.add(got)
+                    if len(set(combo)) < len(combo):
+                        # the SAME matcher object given more than once (MatchesSetwise(*[m] * 2))
+                        objs = {i: SETWISE_FAMILY[i][1]() for i in set(combo)}
+                        got = M.MatchesSetwise(*[objs[i] for i in combo]).match(list(values)) is None
+                        res.evaluations += 1
+                        if got != want:
+                            problems.append(("setwise-same-object", "MatchesSetwise(%s) built from one matcher object per distinct matcher .match(%r): %r, a one-to-one assignment %s" % (", ".join(SETWISE_FAMILY[i][0] for i in combo), list(values), got, "exists" if want else "does not exist")))
                     res.states += 1
                     res.distinct.add(obs_hash(("setwise", combo, values)))
                     if verdicts != {want}:
@@ -183,7 +190,7 @@ def run_shard(shard, tier, seed):
     res = ShardResult()
     if shard[0] == "setwise":
         for clause, msg in check_setwise(res, tier, shard[1], NSHARDS):
-            fp = "C06/setwise-greedy" if clause.startswith("setwise") else "C06/%s" % clause
+            fp = "C06/setwise-greedy" if clause.startswith("setwise") and clause != "setwise-same-object" else "C06/%s" % clause
             res.violation(fp, msg, {"setwise": msg})
         res.traces_validated = res.evaluations
         return res
